@@ -35,7 +35,7 @@ func run(cfg lib.Cfg) error {
 	// lib.NewRNG(seed) streams of neighbouring seeds are shifts of one another (they
 	// re-synchronise after a few cases); Fork() starts from a hashed state instead
 	r := lib.NewRNG(cfg.Seed).Fork()
-	n := 340
+	n := 300
 	if cfg.Thorough() {
 		n = 4000
 	}
@@ -59,6 +59,16 @@ func run(cfg lib.Cfg) error {
 		out.Add(k)
 	}
 	for k, v := range notes {
+		out.Notes[k] = v
+	}
+	sh, snotes, err := rows.SharedCases(r.Fork(), 4, false)
+	if err != nil {
+		return fmt.Errorf("shared client: %w", err)
+	}
+	for _, k := range sh {
+		out.Add(k)
+	}
+	for k, v := range snotes {
 		out.Notes[k] = v
 	}
 	rows.DistNotes(out)
